@@ -655,7 +655,9 @@ class World:
             ex.used.add('monoidal.Functor.__call__[Ty]')
             ex.used.add('lemma:functor.homomorphism')
         if getattr(F, 'python', False):
-            ex.used.add('axiom: PythonFunctor sends a type to PRO(len) and a box to Function(len(dom), len(cod), box.function)')
+            ex.used.add('lemma:cartesian.Diagram.__call__.quivers')       # the two lambdas, executed from the real AST
+            ex.used.add('axiom: PythonFunctor(ob, ar) applies ob to one-object types and ar to boxes '
+                        '(Quiver.__getitem__ calls the function; PythonFunctor.__init__ sets ob_factory=PRO, ar_factory=Function)')
         if getattr(F, 'adjoints', False):
             # F(t.l) == F(t).l, F(t.r) == F(t).r: lemmas by snoc-induction from the object-level statement
             for u in ('lemma:functor.adjoint.object.l', 'lemma:functor.adjoint.object.r', 'lemma:functor.adjoint.type.l',
